@@ -79,6 +79,9 @@ def case_strategy(draw: Any) -> Dict[str, Any]:
         "seg": draw(segmentation()),
         # plain keep-alive: each request is sent once the previous response has had time to end
         "sequential": draw(st.integers(0, 3)) == 0,
+        # a further request the client gives up on: its head is cut short and the client
+        # half-closes (it keeps reading) - an aborted message
+        "tail": draw(st.sampled_from([None, None, None, "head_cut"])),
         "cfg": {"keep_alive_max_requests": draw(st.sampled_from([1, 2, 3, 1000, 1000, 1000])),
                 "max_app_queue_size": draw(st.sampled_from([1, 2, 10, 10])),
                 "h11_pass_raw_headers": draw(st.booleans())},
@@ -229,16 +232,22 @@ def model(case: Dict[str, Any], actual_served: int = 0) -> Dict[str, Any]:
     return {"served": served, "reason": reason, "announce": announce}
 
 
+TAIL = b"GET /tail HTTP/1.1\r\nHost: example.com\r\nX-Cut: sho"
+
+
 async def scenario(env: Any, case: Dict[str, Any]) -> Any:
     conn = env.connect()
+    tail = TAIL if case.get("tail") == "head_cut" else b""
     if case.get("sequential"):
         for i, r in enumerate(case["requests"]):
             if conn.server_gone:
                 break
             await deliver(env, conn, req_bytes(i, r), case["seg"])
             await env.settle(20.0)
+        if tail and not conn.server_gone:
+            await deliver(env, conn, tail, case["seg"])
     else:
-        data = b"".join(req_bytes(i, r) for i, r in enumerate(case["requests"]))
+        data = b"".join(req_bytes(i, r) for i, r in enumerate(case["requests"])) + tail
         await deliver(env, conn, data, case["seg"])
     await env.settle(200.0)
     conn.eof()
@@ -274,11 +283,33 @@ def judge(case: Dict[str, Any], obs: Any) -> Dict[str, Any]:
     insts = obs.instances
     methods = [r["method"] for r in reqs]
     data = conn.received()
-    resps, leftover, err = parse_responses(data, methods, conn.server_gone)
+    resps, leftover, err = parse_responses(data, methods + ["GET"], conn.server_gone)
     if err:
         raise Violation("malformed_response", err, backend=be)
+    tail_resp = None
+    if case.get("tail") and len(resps) == len(reqs) + 1:
+        tail_resp = resps.pop()  # the server's answer to the aborted message
     served = len(resps)
     m = model(case, served)
+    if case.get("tail"):
+        if m["reason"] is None:
+            # every request was served and the connection was reusable: the aborted message is
+            # answered by the server itself, which announces close and closes
+            tokens = [] if tail_resp is None else [
+                t.strip().lower() for v in tail_resp.header(b"connection") for t in v.split(b",")]
+            if tail_resp is None or not 400 <= tail_resp.status < 500 or not tail_resp.complete:
+                raise Violation("aborted_message_not_answered", "request head cut short by the "
+                                "client's half-close: " + (
+                                    "no response" if tail_resp is None else
+                                    f"{tail_resp.to_json()}"), backend=be)
+            if b"close" not in tokens or not conn.server_gone:
+                raise Violation("close_not_announced", f"answer to the aborted message: "
+                                f"{tail_resp.headers}; closed={conn.server_gone}", backend=be,
+                                reason="aborted message")
+        elif tail_resp is not None and m["reason"] != "early response":
+            raise Violation("served_after_close", "bytes behind the last request of the "
+                            f"connection were answered ({tail_resp.status})", backend=be,
+                            reason=m["reason"])
     # --- every response is complete, in order, carries its own body
     for i, r in enumerate(resps):
         req = reqs[i] if i < len(reqs) else None
